@@ -18,6 +18,10 @@ func init() {
 }
 
 func c15(c *Ctx) {
+	c.NoPathFromEdge("restart/missing-database-file-keeps-the-log", "litefs.(*DB).initFromDatabaseHeader", GP("os.IsNotExist(litefs.OS.Open(p0.os, @@DatabasePath@@)#1)", true), c.P.PlainCalls("litefs.(*DB).clean"), 1,
+		"a missing database file (the state of a dropped database) never leads to clean(), which removes the transaction log", "every restart of a node holding a dropped database would reset it to position 0: absent replicas keep the database, a re-created one starts at TXID 1")
+	c.Guarded("restart/clean-only-for-invalid-header", "litefs.(*DB).initFromDatabaseHeader", c.P.PlainCalls("litefs.(*DB).clean"), gs(G(`^\(litefs\.errInvalidDatabaseHeader == litefs\.readSQLiteDatabaseHeader\(.*\)#2\)$`, true)), 1,
+		"clean() runs only for a database file whose header is invalid", "")
 	c.EveryIterationG("join/every-database-marked-for-a-new-replica", "http.(*Server).handlePostStream",
 		G(`^\(\(phi\(-1\) \+ 1\) < builtin\.len\(litefs\.\(\*Store\)\.DBs\(p0\.store\)\)\)$`, true),
 		func(in ssa.Instruction) bool { _, ok := in.(*ssa.MapUpdate); return ok }, 1,
